@@ -309,6 +309,8 @@ func genDecide(repo, out string) {
 		{file: "channels/channel_state.go", recvType: "channelState", name: "QueuedCidsTotal", coqName: "gen_QueuedCidsTotal", coqSig: "(c : chan) : Z", result: "Z", atoms: stateAtoms},
 		{file: "channels/channel_state.go", recvType: "channelState", name: "SentCidsTotal", coqName: "gen_SentCidsTotal", coqSig: "(c : chan) : Z", result: "Z", atoms: stateAtoms},
 		{file: "channels/channel_state.go", recvType: "channelState", name: "ReceivedCidsTotal", coqName: "gen_ReceivedCidsTotal", coqSig: "(c : chan) : Z", result: "Z", atoms: stateAtoms},
+		{file: "types.go", recvType: "ChannelID", name: "OtherParty", coqName: "gen_OtherParty", coqSig: "(thisPeer : N) (k : chid) : N", result: "N",
+			atoms: map[string]dAtom{"thisPeer": {"thisPeer", "N"}, "c.Initiator": {"k_init k", "N"}, "c.Responder": {"k_resp k", "N"}}},
 		{file: "manager.go", recvType: "ValidationResult", name: "LeaveRequestPaused", coqName: "gen_LeaveRequestPaused", coqSig: "(vr : valres) (c : chan) : bool", result: "bool",
 			atoms: map[string]dAtom{
 				"vr.ForcePause": {"vr_force vr", "bool"}, "vr.RequiresFinalization": {"vr_fin vr", "bool"}, "vr.DataLimit": {"vr_limit vr", "N"},
